@@ -414,7 +414,7 @@ pub fn run(ctx: &Ctx, rep: &mut Report) {
         "the base of the rounding relation is the library's own default output (C02/C06/C07 judge that output)".into(),
     ];
     let js = jobs();
-    let per = ctx.n((2_500_000 / js.len().max(1) as u64).max(1500), 3_000_000);
+    let per = ctx.n((2_500_000 / js.len().max(1) as u64).max(1500), 400_000);
     run_prop_jobs(
         rep,
         ctx,
